@@ -21,6 +21,17 @@ pub fn text(s: &str) -> String {
         format!("s{}", id)
     })
 }
+/// like `text`, but never creates a new named constant: a string that no earlier `text` call interned is
+/// printed inline (used for address-book entries that the rest of the case never mentions)
+pub fn text_known(s: &str) -> String {
+    if s.len() < 12 {
+        return coq_text(s);
+    }
+    INTERN.with(|m| match m.borrow().get(s) {
+        Some(id) => format!("s{}", id),
+        None => coq_text(s),
+    })
+}
 /// the definitions to place at the top of every case file
 pub fn intern_prelude() -> Vec<String> {
     INTERN.with(|m| {
